@@ -62,6 +62,9 @@ pub enum GenerateError {
     /// All constants must be initialized in metal
     UninitializedConstant,
 
+    /// Bind group index is beyond the argument buffers we can generate
+    UnsupportedBindGroupIndex,
+
     /// Metal does not support matrix with width or height of 1
     UnsupportedUnitMatrix,
 
